@@ -787,7 +787,7 @@ def correspond(res, n):
                 sig, what = 'C03:parent-ack-differs', (
                     'real ResultHandler/ApplyResult differs from the proved model in callbacks, SYN response or ownership record')
             res.alarms.append(dict(signature=sig, what='%s on %s: impl %s' % (
-                what, brief(c)[:700], json.dumps(dict(o, syn_use=len(o.get('syn_use', []))) if isinstance(o, dict) else o)[:700]),
+                what, brief(c)[:700], json.dumps(dict(o, syn_use=len(o['syn_use'])) if isinstance(o, dict) and 'syn_use' in o else o)[:700]),
                 replay=dict(case=c, impl=o)))
         else:
             res.broken.append(dict(kind='correspondence', name='Worker.workloop vs model (bookkeeping events only)',
